@@ -9,13 +9,13 @@ usage: tools/seeded.py [--only id,id] [--tier quick]
 import argparse, json, os, shutil, subprocess, sys, time
 HERE = os.path.dirname(os.path.dirname(os.path.abspath(__file__)))
 sys.path.insert(0, os.path.join(HERE, "tools"))
-from mutants import make_copy, run_tests, run_check  # noqa: E402
+from mutants import die_with_parent, make_copy, run_tests, run_check  # noqa: E402
 
 
 def demo(d, path):
     env = dict(os.environ, PYTHONPATH=os.path.join(d, "src"), PYTHONDONTWRITEBYTECODE="1")
     try:
-        r = subprocess.run(["/venv/bin/python", path], cwd=d, env=env, capture_output=True, text=True, timeout=600)
+        r = subprocess.run(["/venv/bin/python", path], cwd=d, env=env, capture_output=True, text=True, timeout=600, preexec_fn=die_with_parent)
         return r.returncode, (r.stdout + r.stderr)[-400:]
     except subprocess.TimeoutExpired:
         return "timeout", ""
